@@ -39,6 +39,7 @@ import (
 	"github.com/sdcio/data-server/pkg/datastore/target"
 	"github.com/sdcio/data-server/pkg/datastore/types"
 	"github.com/sdcio/data-server/pkg/schema"
+	"github.com/sdcio/data-server/pkg/tree"
 	"github.com/sdcio/data-server/pkg/utils"
 )
 
@@ -506,7 +507,8 @@ func (d *Datastore) DeviationMgr(ctx context.Context) {
 
 func (d *Datastore) runDeviationUpdate(ctx context.Context, dm map[string]sdcpb.DataServer_WatchDeviationsServer) {
 
-	sep := "/"
+	// the separator must not appear in key values, otherwise different paths share one index key
+	sep := tree.KeysIndexSep
 
 	// send deviation START
 	for _, dc := range dm {
